@@ -11,6 +11,7 @@
    runner c04-sub: [number of LoadConst; number of Lookup] in the stream of `{{ e }}` according to the recursive folder (count_loads mirrors compile_expr; the look-ups are those left in fold_sub e). *)
 From Coq Require Import String.
 From MJ Require Import Common.Base Lang.Syntax Lang.Meta Lang.Interp Lang.Codec C04.Model.
+From MJ Require C04.Coll C04.CollSpec.
 
 Definition FUEL := 400%nat.
 
@@ -113,5 +114,155 @@ Definition run_sub (inp : list Z) : list Z :=
 Definition run := run_with as_const.
 Definition run_old := run_with as_const_old.
 
+(* ---- collections and call arguments (C04/Coll.v), BTreeMap as the map implementation ----
+   runner c04-coll.  input: nrho (name value).. expr
+     value: 0 undefined | 1 none | 2 b | 3 z | 4 n c.. | 5 n v.. list | 10 n v.. tuple | 11 n (k v).. map (inserted pair by pair)
+     expr : 0 z | 1 n c.. | 2 b | 3 none | 4 x | 5 n e.. list | 6 n e.. tuple | 7 n (k v).. map
+          | 8 hasrecv [recv] f nargs (kind [n c..] e).. hascaller [id]     kind: 0 positional | 1 keyword (key follows) | 2 *e | 3 **e
+   output: ncode code.. nrun run.. ceval..
+     code : 1 value (LoadConst) | 2 x (Lookup) | 3 n BuildList | 4 n BuildTuple | 5 n BuildMap | 6 n BuildKwargs
+          | 7 n MergeKwargs | 8 n UnpackLists | 9 f a (call; a = argc + 1, 0 = count on the stack)
+     run / ceval: 0 value | [1] failed;   value as above plus 12 n (k v).. kwargs | 13 f n v.. call result | 14 id macro *)
+Module CollRun.
+Import Coll CollSpec.
+
+Fixpoint enc_cval (v : cval) : list Z :=
+  let pairs := fix go (m : list (cval * cval)) : list Z := match m with [] => [] | (k, x) :: r => enc_cval k ++ enc_cval x ++ go r end in
+  match v with
+  | CUndef => [0]
+  | CAtom LNone => [1]
+  | CAtom (LBool b) => [2; if b then 1 else 0]
+  | CAtom (LInt z) => [3; z]
+  | CAtom (LStr s) => 4 :: lenZ s :: s
+  | CList l => 5 :: lenZ l :: flat_map enc_cval l
+  | CTuple l => 10 :: lenZ l :: flat_map enc_cval l
+  | CMap m => 11 :: lenZ m :: pairs m
+  | CKwargs m => 12 :: lenZ m :: pairs m
+  | CRes f args => 13 :: f :: lenZ args :: flat_map enc_cval args
+  | CMacro id => [14; id]
+  end.
+
+Definition enc_instr (i : cinstr) : list Z :=
+  match i with
+  | ILoadConst v => 1 :: enc_cval v
+  | ILookup x => [2; x]
+  | IBuildList n => [3; Z.of_nat n]
+  | IBuildTuple n => [4; Z.of_nat n]
+  | IBuildMap n => [5; Z.of_nat n]
+  | IBuildKwargs n => [6; Z.of_nat n]
+  | IMergeKwargs n => [7; Z.of_nat n]
+  | IUnpackLists n => [8; Z.of_nat n]
+  | ICall f argc => [9; f; match argc with Some n => Z.of_nat n + 1 | None => 0 end]
+  end.
+
+Fixpoint dcval (fuel : nat) (l : list Z) {struct fuel} : option (cval * list Z) :=
+  match fuel with
+  | O => None
+  | S fuel =>
+    let dlist := fix go (n : nat) (l : list Z) : option (list cval * list Z) :=
+      match n with
+      | O => Some ([], l)
+      | S n => Codec.obind (dcval fuel l) (fun '(v, l1) => Codec.obind (go n l1) (fun '(vs, l2) => Some (v :: vs, l2)))
+      end in
+    match l with
+    | 0 :: r => Some (CUndef, r)
+    | 1 :: r => Some (CAtom LNone, r)
+    | 2 :: b :: r => Some (CAtom (LBool (negb (b =? 0))), r)
+    | 3 :: z :: r => Some (CAtom (LInt z), r)
+    | 4 :: n :: r => Codec.obind (take_n (Z.to_nat n) r) (fun '(s, r1) => Some (CAtom (LStr s), r1))
+    | 5 :: n :: r => Codec.obind (dlist (Z.to_nat n) r) (fun '(vs, r1) => Some (CList vs, r1))
+    | 10 :: n :: r => Codec.obind (dlist (Z.to_nat n) r) (fun '(vs, r1) => Some (CTuple vs, r1))
+    | 11 :: n :: r =>
+        Codec.obind (dlist (Z.to_nat n * 2)%nat r) (fun '(vs, r1) =>
+          Some (CMap ((fix pair (l : list cval) (m : cmap) : cmap :=
+                         match l with k :: x :: t => pair t (ins_btree k x m) | _ => m end) vs []), r1))
+    | _ => None
+    end
+  end.
+
+Fixpoint drho (n : nat) (l : list Z) : option (list (name * cval) * list Z) :=
+  match n with
+  | O => Some ([], l)
+  | S n => match l with
+           | x :: r => Codec.obind (dcval 20 r) (fun '(v, r1) => Codec.obind (drho n r1) (fun '(kv, r2) => Some ((x, v) :: kv, r2)))
+           | [] => None end
+  end.
+
+Fixpoint dcexpr (fuel : nat) (l : list Z) {struct fuel} : option (cexpr * list Z) :=
+  match fuel with
+  | O => None
+  | S fuel =>
+    let dlist := fix go (n : nat) (l : list Z) : option (list cexpr * list Z) :=
+      match n with
+      | O => Some ([], l)
+      | S n => Codec.obind (dcexpr fuel l) (fun '(e, l1) => Codec.obind (go n l1) (fun '(es, l2) => Some (e :: es, l2)))
+      end in
+    let dpairs := fix go (n : nat) (l : list Z) : option (list (cexpr * cexpr) * list Z) :=
+      match n with
+      | O => Some ([], l)
+      | S n => Codec.obind (dcexpr fuel l) (fun '(k, l1) => Codec.obind (dcexpr fuel l1) (fun '(v, l2) =>
+               Codec.obind (go n l2) (fun '(ps, l3) => Some ((k, v) :: ps, l3))))
+      end in
+    let dargs := fix go (n : nat) (l : list Z) : option (list (argk * cexpr) * list Z) :=
+      match n with
+      | O => Some ([], l)
+      | S n =>
+          Codec.obind (match l with
+                       | 0 :: r => Some (KPos, r)
+                       | 1 :: k :: r => Codec.obind (take_n (Z.to_nat k) r) (fun '(s, r1) => Some (KKw s, r1))
+                       | 2 :: r => Some (KPosSplat, r)
+                       | 3 :: r => Some (KKwSplat, r)
+                       | _ => None end) (fun '(kind, l1) =>
+          Codec.obind (dcexpr fuel l1) (fun '(e, l2) => Codec.obind (go n l2) (fun '(es, l3) => Some ((kind, e) :: es, l3))))
+      end in
+    match l with
+    | 0 :: z :: r => Some (XConst (LInt z), r)
+    | 1 :: n :: r => Codec.obind (take_n (Z.to_nat n) r) (fun '(s, r1) => Some (XConst (LStr s), r1))
+    | 2 :: b :: r => Some (XConst (LBool (negb (b =? 0))), r)
+    | 3 :: r => Some (XConst LNone, r)
+    | 4 :: x :: r => Some (XVar x, r)
+    | 5 :: n :: r => Codec.obind (dlist (Z.to_nat n) r) (fun '(es, r1) => Some (XList es, r1))
+    | 6 :: n :: r => Codec.obind (dlist (Z.to_nat n) r) (fun '(es, r1) => Some (XTuple es, r1))
+    | 7 :: n :: r => Codec.obind (dpairs (Z.to_nat n) r) (fun '(ps, r1) => Some (XMap ps, r1))
+    | 8 :: hr :: r =>
+        Codec.obind (if hr =? 0 then Some (None, r) else Codec.obind (dcexpr fuel r) (fun '(e, r1) => Some (Some e, r1))) (fun '(recv, r1) =>
+        match r1 with
+        | f :: na :: r2 =>
+            Codec.obind (dargs (Z.to_nat na) r2) (fun '(args, r3) =>
+            match r3 with
+            | 0 :: r4 => Some (XCall recv f args None, r4)
+            | _ :: id :: r4 => Some (XCall recv f args (Some id), r4)
+            | _ => None
+            end)
+        | _ => None
+        end)
+    | _ => None
+    end
+  end.
+
+Definition rho_of (kv : list (name * cval)) : name -> cval :=
+  fun x => match assoc x kv with Some v => v | None => CUndef end.
+
+Definition run_coll (inp : list Z) : list Z :=
+  match inp with
+  | nr :: r =>
+      match drho (Z.to_nat nr) r with
+      | Some (kv, r1) =>
+          match dcexpr 60 r1 with
+          | Some (e, _) =>
+              let rho := rho_of kv in
+              let code := ccompile ins_btree true true e in
+              let ctoks := flat_map enc_instr code in
+              let res (o : option cval) := match o with Some v => 0 :: enc_cval v | None => [1] end in
+              let rtoks := res (match Coll.run ins_btree rho code [] with Some [v] => Some v | _ => None end) in
+              lenZ ctoks :: ctoks ++ lenZ rtoks :: rtoks ++ res (ceval ins_btree rho e)
+          | None => [9]
+          end
+      | None => [9]
+      end
+  | _ => [9]
+  end.
+End CollRun.
+
 Open Scope string_scope.
-Definition runners : list (string * (list Z -> list Z)) := [ ("c04", run); ("c04-old", run_old); ("c04-sub", run_sub) ].
+Definition runners : list (string * (list Z -> list Z)) := [ ("c04", run); ("c04-old", run_old); ("c04-sub", run_sub); ("c04-coll", CollRun.run_coll) ].
